@@ -4,6 +4,7 @@ import Driver.Epoch
 import Driver.Tree
 import Driver.RangeArith
 import Driver.ClaimTrace
+import Driver.BridgeStore
 open Driver Aggkit
 
 def keccakStep (_ : Unit) (ws : List String) : Unit × String :=
@@ -21,5 +22,6 @@ def main (args : List String) : IO UInt32 := do
   | ["epoch"] => loop inp Driver.Epoch.step {}; return 0
   | ["rangearith"] => loop inp Driver.RangeArith.step (); return 0
   | ["claimtrace"] => loop inp Driver.ClaimTrace.step (); return 0
+  | ["bridgestore"] => loop inp Driver.BridgeStore.step (Aggkit.BridgeStore.BP.init Driver.Tree.H Driver.Tree.N); return 0
   | ["tree"] => loop inp Driver.Tree.step (Aggkit.TM.init Driver.Tree.H Driver.Tree.N); return 0
   | _ => IO.eprintln "usage: aggkit_driver <scenario>"; return 2
